@@ -362,11 +362,16 @@ impl<F: Write + Seek> Directory<F> {
                 pred_parent_id = predecessor_id;
                 predecessor_id = next_id;
             }
+            // The predecessor's left child moves up one level (or stays
+            // below a predecessor that may turn red), so make it black.
+            let pred_left = self.dir_entry(predecessor_id).left_sibling;
+            if pred_left != consts::NO_STREAM {
+                self.set_color(pred_left, Color::Black)?;
+            }
             if pred_parent_id != stream_id {
                 // Detach the predecessor from its parent, which adopts the
                 // predecessor's left subtree; the predecessor then adopts the
                 // removed entry's left subtree.
-                let pred_left = self.dir_entry(predecessor_id).left_sibling;
                 self.dir_entry_mut(pred_parent_id).right_sibling = pred_left;
                 let mut sector =
                     self.seek_within_dir_entry(pred_parent_id, 72)?;
@@ -375,10 +380,23 @@ impl<F: Write + Seek> Directory<F> {
                     left_sibling;
             }
             self.dir_entry_mut(predecessor_id).right_sibling = right_sibling;
+            // The predecessor takes over the removed entry's position, so it
+            // also takes over its color.
+            let color = self.dir_entry(stream_id).color;
+            self.dir_entry_mut(predecessor_id).color = color;
             self.write_dir_entry(predecessor_id)?;
             predecessor_id
         };
-        // TODO: recolor nodes
+        // Section 2.6.4 of the MS-CFB spec forbids two adjacent red nodes.
+        // We don't rebalance, but we must not introduce such a pair: an only
+        // child that moves up to the removed entry's position becomes black.
+        // (TODO: rebalance the tree.)
+        if (left_sibling == consts::NO_STREAM
+            || right_sibling == consts::NO_STREAM)
+            && replacement_id != consts::NO_STREAM
+        {
+            self.set_color(replacement_id, Color::Black)?;
+        }
 
         // Remove the entry.
         debug_assert_eq!(stream_ids.last(), Some(&stream_id));
@@ -403,6 +421,17 @@ impl<F: Write + Seek> Directory<F> {
             sector.write_le_u32(replacement_id)?;
         }
         self.free_dir_entry(stream_id)?;
+        Ok(())
+    }
+
+    /// Sets the color of the specified directory entry, in memory and in the
+    /// underlying file.
+    fn set_color(&mut self, stream_id: u32, color: Color) -> io::Result<()> {
+        if self.dir_entry(stream_id).color != color {
+            self.dir_entry_mut(stream_id).color = color;
+            let mut sector = self.seek_within_dir_entry(stream_id, 67)?;
+            sector.write_all(&[color.as_byte()])?;
+        }
         Ok(())
     }
 
